@@ -867,7 +867,8 @@ def run(ctx):
             if r["oracle"] is None:
                 r["oracle"] = []
                 r["aliased"] = True
-            if r["exc"] is None and not has_symlinked_ancestor(r["pre"], ents):
+            dir_on_link = any(e["k"] == "dir" and r["pre"].get(tuple(e["p"]), {}).get("k") == "sym" for e in ents)
+            if r["exc"] is None and not has_symlinked_ancestor(r["pre"], ents) and not dir_on_link:
                 # leaf directories (no entry created inside) carry the recorded mtime
                 for e in ents:
                     if e["k"] == "dir" and not any(x["p"][: len(e["p"])] == e["p"] and x is not e for x in ents):
